@@ -213,3 +213,5 @@ def native(tier, seed):
 from . import foundation  # noqa: E402
 
 foundation.register("C15", wrap_funcs=("equal", "less_equal"))
+
+from . import c14  # noqa: E402,F401  (registers C15.SinkReader.initialize)
